@@ -13,7 +13,7 @@ CLAIMS = {
   note="Trusted: Coq kernel+VM, hand model of dns.rs/tcp.rs connecting (tied by sampling), harness+driver, hook wrappers. All theorems closed under the global context (no axioms).",
   technique="Coq proof (refinement of index code to list spec) + differential correspondence", ref="DESIGN.md 4/C16, 3.3"),
  "C10": dict(
-  text="Coq theorems for ALL attempt lists, configurations and tie-breaks that the discrete-event model of EyeballSet satisfies the executable C10 monitor (Ok soundness incl. first-success-wins and deadline, completeness, first-error/all-tried, NoProgress iff empty, Timeout exactly at the deadline, never out of fuel), by an inductive invariant over the simulation. Model tied to the real EyeballSet (paused tokio clock, scripted attempts) by exact comparison of result, completion time and every first-poll/ready instant on a grid sample + random cases; the same monitor judges every implementation trace.",
+  text="Coq theorems for ALL attempt lists, configurations and tie-breaks that the discrete-event model of EyeballSet satisfies the executable C10 monitor (Ok soundness incl. first-success-wins and deadline, completeness, first-error/all-tried, NoProgress iff empty, Timeout exactly at the deadline, no hang with a stagger delay configured while a never-started candidate would accept, never out of fuel), by an inductive invariant over the simulation. Model tied to the real EyeballSet (paused tokio clock, scripted attempts) by exact comparison of result, completion time and every first-poll/ready instant on a grid sample + random cases; the same monitor judges every implementation trace.",
   note="Trusted: Coq kernel+VM; hand model of happy_eyeballs.rs (tied by sampling); tokio paused-clock semantics (oracle O4); tie-break among simultaneous timer wake-ups taken from the implementation's own completion order; harness+driver; hook re-export. No axioms.",
   technique="Coq proof (inductive invariant of a discrete-event simulation, monitor = spec) + differential correspondence in virtual time", ref="DESIGN.md 4/C10, 3.2, appendix B"),
  "C11": dict(
@@ -25,7 +25,7 @@ CLAIMS = {
   note="Trusted: Coq kernel+VM; hand model of auto.rs ReadVersion and rewind.rs (tied by sampling); harness scripted stream; hook verif_read_version. The clause 'answered identically to a single-protocol server' rests on hyper itself (R2) and is exercised end-to-end under C01 only. Genuine defect D1 (fragmented preface => HTTP/1) was found by this model and fixed in /repo (856f863). No axioms.",
   technique="Coq proof (loop invariant over arbitrary read scripts) + differential correspondence", ref="DESIGN.md 4/C08, 3.4, appendix C"),
  "C18": dict(
-  text="Coq theorems for every adapter stack of the model, every inner stream/script and every outer op sequence: delivered bytes ++ still-unread bytes is invariant (no loss, duplication, reordering, invention), the inner writer holds exactly the accepted bytes in order (also for vectored writes), per-op bounds, TokioIo filled/initialised bookkeeping, EOF/Pending/error propagation. Tied to the real TokioIo (both directions, nested), Rewind, TlsBraid, client and server Stream wrappers by per-operation differential runs against a scripted inner stream, and to the real in-process DuplexStream pipe (bare and under the wrappers) with writes / vectored writes against back-pressure, the far end drained and compared.",
+  text="Coq theorems for every adapter stack of the model, every inner stream/script and every outer op sequence: delivered bytes ++ still-unread bytes is invariant (no loss, duplication, reordering, invention), the inner writer holds exactly the accepted bytes in order (also for vectored writes), per-op bounds, TokioIo filled/initialised bookkeeping, EOF/Pending/error propagation; the same law for the sniffing rewind buffer as the auto server builds it (ReadVersion over any fragmentation, then any reads through the Rewind it returns: c18_sniffed_rewind). Tied to the real TokioIo (both directions, nested), Rewind, TlsBraid, client and server Stream wrappers by per-operation differential runs against a scripted inner stream, and to the real in-process DuplexStream pipe (bare and under the wrappers) with writes / vectored writes against back-pressure, the far end drained and compared, and to the real ReadVersion + Rewind pipeline over fragmented first bytes.",
   note="Trusted: Coq kernel+VM; hand model (forwarding adapters are identity in the model, so for them the theorem is only as strong as the correspondence run); absence of UB in the unsafe blocks is not expressible (R1); real TCP/Unix sockets under Braid are exercised by C01 only. No axioms.",
   technique="Coq proof (FIFO refinement invariant over op sequences) + per-op differential correspondence", ref="DESIGN.md 4/C18, 3.4"),
  "C13": dict(
